@@ -68,3 +68,4 @@ pub fn profile_from_json(val: &serde_json::Value) -> Profile {
             .collect()
     })
 }
+
